@@ -333,6 +333,29 @@ def c13_sympy(cfg):
             rec.direct_violation("library raised on the documented monomial-key dictionary", _sigbase(cfg) + f":sympy-matrix-format:{kind}:raised-{type(e).__name__}",
                                  {"exception": f"{type(e).__name__}: {e}"[:300], "where": where}, reproduced=True)
             return rec
+    elif kind == "only_unperturbed_int_key":
+        # {1: h_0} (the documented integer key, no perturbation at all): every higher order is absent, nothing raises
+        from pymablock.series import zero as _z
+
+        try:
+            out = block_diagonalize({1: H0}, subspace_indices=idx, symbols=[x], hermitian=herm)
+            nb_ = len(set(idx))
+            vals = [out[0][(nb_ - 1, nb_ - 1, 0)], out[0][(0, 0, 1)], out[1][(0, nb_ - 1, 1)]]  # the last block has non-zero levels
+        except Exception as e:  # noqa: BLE001
+            from .herm import library_exception_info
+
+            is_lib, where = library_exception_info(e, pure_inputs=True)
+            if not is_lib:
+                raise
+            rec.direct_violation("library raised on {1: h_0}", _sigbase(cfg) + f":sympy-matrix-format:{kind}:raised-{type(e).__name__}",
+                                 {"exception": f"{type(e).__name__}: {e}"[:300], "where": where}, reproduced=True)
+            return rec
+        if vals[1] is _z and vals[2] is _z and vals[0] is not _z:
+            rec.discharged("{1: h_0}: order 0 present, higher orders absent", "confirmed")
+        else:
+            rec.direct_violation("{1: h_0}: unexpected orders", _sigbase(cfg) + f":sympy-matrix-format:{kind}:values", {"values": [str(v)[:80] for v in vals]}, reproduced=True)
+        rec.nontrivial = True
+        return rec
     elif kind == "names_without_symbols":
         # no `symbols` argument: the perturbative parameters are taken from the Hamiltonian; the result must say which index is which
         # (matrix entries must be numbers here: every free symbol counts as a perturbative parameter)
@@ -880,7 +903,7 @@ def configs_c13(tier):
     jobs = [("vf.props.relations", "c13", c) for c in cfgs]
     for herm in (True, False):
         for sizes in ([1, 1], [1, 2]):
-            for rel in ("merge", "permute", "symbol_order", "symbol_order_dict", "symbol_order_dict_int_key", "names_without_symbols"):
+            for rel in ("merge", "permute", "symbol_order", "symbol_order_dict", "symbol_order_dict_int_key", "names_without_symbols", "only_unperturbed_int_key"):
                 jobs.append(("vf.props.relations", "c13_sympy", dict(sympy_format=True, hermitian=herm, sizes=sizes, spectrum=RAT_SPECTRA[sum(sizes)], relation=rel, max_order=3)))
     return jobs
 
